@@ -137,6 +137,7 @@ type StepS struct {
 	Pre     bool     `json:"pre"` // false: the step's precondition is unmet
 	HoldMs  int      `json:"hold_ms"`
 	SlowPre int      `json:"slow_pre_ms"` // > 0: a MET precondition whose evaluation takes that long (a script)
+	DescLen int      `json:"desc_len"`    // > 0: a description of that many characters (makes the status line long)
 }
 
 type ExecEv struct {
@@ -195,6 +196,8 @@ type Case struct {
 	TRun1      int64             `json:"t_run1"`
 	TStop      int64             `json:"t_stop"`
 	SockAfter  bool              `json:"sock_after"`
+	RecentHas  bool              `json:"recent_has_run"` // the run is listed by GetRecentHistory after it has ended
+	LineBytes  int               `json:"line_bytes"`     // size of the final status as JSON
 	Infra      string            `json:"infra,omitempty"`
 }
 
@@ -439,6 +442,9 @@ func yamlOf(c *Case, name, tag, dir string) string {
 	b.WriteString("steps:\n")
 	for _, s := range c.Steps {
 		fmt.Fprintf(&b, "  - name: %s\n", s.Name)
+		if s.DescLen > 0 {
+			fmt.Fprintf(&b, "    description: \"%s\"\n", strings.Repeat("d", s.DescLen))
+		}
 		ex("    ")
 		if len(s.Depends) > 0 {
 			b.WriteString("    depends:\n")
@@ -593,6 +599,17 @@ func runCase(c *Case, work string) {
 		c.LatestErr = err.Error()
 	}
 	c.Latest = proj(st, true)
+	for _, sf := range fresh.GetRecentHistory(wf, 10) {
+		if sf != nil && sf.Status != nil && sf.Status.RequestID == c.Req {
+			c.RecentHas = true
+		}
+	}
+	func() {
+		defer func() { _ = recover() }()
+		if b, err := agt.Status().ToJSON(); err == nil {
+			c.LineBytes = len(b)
+		}
+	}()
 	st2, err := fresh.GetStatusByRequestID(wf, c.Req)
 	if err != nil {
 		c.ByReqErr = err.Error()
@@ -668,6 +685,16 @@ func genCase(k int, r *vh.Rng, kind string) *Case {
 				}
 			}
 		}
+	case "huge":
+		// every status line exceeds 64 KiB (long step descriptions): readers with a line-length limit lose the run
+		c.Steps = genSteps(r, 2, true)
+		for i := range c.Steps {
+			c.Steps[i].HoldMs = 3 + r.Below(10)
+			c.Steps[i].DescLen = 34000 + r.Below(4000)
+		}
+		if r.Chance(1, 2) {
+			c.Steps[1].Fails, c.Steps[1].Rlimit = 1, 1
+		}
 	case "stopcommit":
 		// DESIGN.md F5c: the stop request arrives while the loop thread evaluates a (slow) step precondition, i.e. after
 		// it has passed its cancel check for that step
@@ -727,9 +754,9 @@ func inproc(outPath, tier, work, specs string) {
 	}
 	defer out.Close()
 	seed := vh.SeedFromEnv()
-	nPlain, nStop, nRace, nCommit := 44, 10, 10, 2
+	nPlain, nStop, nRace, nCommit, nHuge := 44, 10, 10, 2, 2
 	if tier == "thorough" {
-		nPlain, nStop, nRace, nCommit = 700, 150, 150, 20
+		nPlain, nStop, nRace, nCommit, nHuge = 700, 150, 150, 20, 12
 	}
 	var cases []*Case
 	k := 0
@@ -746,6 +773,7 @@ func inproc(outPath, tier, work, specs string) {
 		add(nStop, "stop")
 		add(nRace, "race")
 		add(nCommit, "stopcommit")
+		add(nHuge, "huge")
 	}
 	sem := make(chan struct{}, 8)
 	var wg sync.WaitGroup
